@@ -209,10 +209,19 @@ var c20Roots = []struct{ field, args string }{
 	{"testContainer", `(id: "1")`}, {"testContainers", ""},
 }
 
+// field resolvers with arguments take part with ONE fixed literal argument list each (the reference data is keyed by field name)
+var c20FixedArgs = map[[2]string]string{
+	{"Category", "popularityScore"}: "(threshold: 5)", {"Category", "categoryMetrics"}: `(metricType: "sales")`,
+	{"Category", "mascot"}: "(includeVolume: true)", {"Category", "categoryStatus"}: "(checkHealth: true)",
+	{"Category", "childCategories"}: "(include: true)", {"Category", "optionalCategories"}: "(include: true)",
+	{"CategoryMetrics", "normalizedScore"}: "(baseline: 1.5)", // (the mock does not implement Subcategory.featuredCategory)
+	{"CategoryMetrics", "relatedCategory"}: "(include: true)", {"TestContainer", "details"}: "(includeExtended: true)",
+}
+
 func c20Selectable(f *fedField) bool {
 	for _, a := range f.ArgNames {
 		_ = a
-		return false // fields with arguments (field resolvers) are not part of the trees
+		return false // other fields with arguments are not part of the trees
 	}
 	return !strings.HasPrefix(f.Name, "_")
 }
@@ -225,7 +234,8 @@ func (e *c20Env) genChildren(r *rand.Rand, t *fedType, depth int, budget *int) [
 		if *budget <= 0 {
 			break
 		}
-		if !c20Selectable(f) || r.Intn(3) == 0 {
+		fixed, hasFixed := c20FixedArgs[[2]string{t.Name, f.Name}]
+		if !(c20Selectable(f) || hasFixed) || r.Intn(3) == 0 {
 			continue
 		}
 		leaf := e.schema.typ(fedNamed(f.Type))
@@ -234,7 +244,7 @@ func (e *c20Env) genChildren(r *rand.Rand, t *fedType, depth int, budget *int) [
 			continue
 		}
 		*budget--
-		n := &c20Node{Field: f.Name, typ: leaf, ListDepth: c20ListDepth(f.Type), Resolver: e.resolvers[[2]string{t.Name, f.Name}]}
+		n := &c20Node{Field: f.Name, Args: fixed, typ: leaf, ListDepth: c20ListDepth(f.Type), Resolver: e.resolvers[[2]string{t.Name, f.Name}]}
 		if composite {
 			e.fill(r, n, leaf, depth+1, budget)
 			if len(n.Children) == 0 && len(n.ByType) == 0 {
